@@ -29,34 +29,73 @@ theorem fixOne_reloc_inert (ss ss' : List Stmt) (i : Nat) (s : Stmt) (hk : (s.op
   · rw [fixOne_pyNone _ _ _ hk hv, fixOne_pyNone _ _ _ hk hv]
   · rw [fixOne_inert _ _ _ hk hv hE hA hn, fixOne_inert _ _ _ hk hv hE hA hn]
 
-/-- (b3) PCR operands (and every other statement with `needsRes`): whenever the target moves by `D`, the
-stored displacement is IDENTICAL -/
+/-- (b3) PCR operands (`needsRes` with post byte choices): whenever the target moves by `D`, the stored displacement
+is IDENTICAL -/
 theorem fixOne_reloc_pcr (h : PW (AddrShiftI D) as as') (i : Nat) (s : Stmt)
     (hk : (s.operand.kind == .relative) = false)
     (hE : s.operand.value.isAddrExpr = false) (hA : s.operand.value.isAddress = false)
+    (hc : s.pkg.choices.isEmpty = false)
     (ht : fixRelTarget as' s = (fixRelTarget as s).map (· + D)) : fixOne as' i s = fixOne as i s := by
   by_cases hv : s.operand.value = .pyNone
   · rw [fixOne_pyNone _ _ _ hk hv, fixOne_pyNone _ _ _ hk hv]
   · rw [fixOne_nonrel_eq _ _ _ hk hv, fixOne_nonrel_eq _ _ _ hk hv, fixNonRel_plain _ _ _ hE hA,
-      fixNonRel_plain _ _ _ hE hA, fixPart3_reloc_of_target h i s ht]
+      fixNonRel_plain _ _ _ hE hA, fixPart3_reloc_of_target h i s hc ht]
+
+/-- (b3, target moved modulo `$10000`) the stored displacement is still IDENTICAL -/
+theorem fixOne_reloc_pcr_mod (h : PW (AddrShiftI D) as as') (i : Nat) (s : Stmt)
+    (hk : (s.operand.kind == .relative) = false)
+    (hE : s.operand.value.isAddrExpr = false) (hA : s.operand.value.isAddress = false)
+    (hc : s.pkg.choices.isEmpty = false)
+    (ht : fixRelTarget as' s = (fixRelTarget as s).map (fun x => (x + D) % 65536)) :
+    fixOne as' i s = fixOne as i s := by
+  by_cases hv : s.operand.value = .pyNone
+  · rw [fixOne_pyNone _ _ _ hk hv, fixOne_pyNone _ _ _ hk hv]
+  · rw [fixOne_nonrel_eq _ _ _ hk hv, fixOne_nonrel_eq _ _ _ hk hv, fixNonRel_plain _ _ _ hE hA,
+      fixNonRel_plain _ _ _ hE hA, fixPart3_reloc_of_target_mod h i s hc ht]
 
 /-- (b3, plain target) `label,PCR` -/
 theorem fixOne_reloc_pcr_plain (h : PW (AddrShiftI D) as as') (i : Nat) (s : Stmt)
     (hk : (s.operand.kind == .relative) = false)
     (hE : s.operand.value.isAddrExpr = false) (hA : s.operand.value.isAddress = false)
+    (hc : s.pkg.choices.isEmpty = false)
     (hp : s.isIdx = false ∨ s.pkg.additional.isAddrExpr = false) : fixOne as' i s = fixOne as i s :=
-  fixOne_reloc_pcr h i s hk hE hA (fixRelTarget_reloc_plain h s hp)
+  fixOne_reloc_pcr h i s hk hE hA hc (fixRelTarget_reloc_plain h s hp)
 
 /-- (b3, expression target) `label+k,PCR` / `label-k,PCR` -/
 theorem fixOne_reloc_pcr_num (h : PW (AddrShiftI D) as as') (i : Nat) (s : Stmt)
     (hk : (s.operand.kind == .relative) = false)
     (hE : s.operand.value.isAddrExpr = false) (hA : s.operand.value.isAddress = false)
+    (hc : s.pkg.choices.isEmpty = false)
     {l r : Value} {op : Char} {m : Mode} {k : Nat} {hh : Option Nat} {mm : Mode} {nn : Bool}
     (hidx : s.isIdx = true) (he : s.pkg.additional = .expr l r op m true)
     (hother : (if l.isAddress then r else l) = .numeric k hh mm nn) (hop : op = '+' ∨ op = '-')
+    (hside : LabelSide l r op)
     (hb : ∀ v, addrOffset as (.expr l r op m true) = .ok v →
       ∃ z, v = .numeric z (some 4) .extended false ∧ z + D ≤ 65535) : fixOne as' i s = fixOne as i s :=
-  fixOne_reloc_pcr h i s hk hE hA (fixRelTarget_reloc_num h s hidx he hother hop hb)
+  fixOne_reloc_pcr h i s hk hE hA hc (fixRelTarget_reloc_num h s hidx he hother hop hside hb)
+
+/-- (b3', repair batch B3) what `fixOne` does to a statement with a label as constant offset of a pointer register
+(`LDA TABLE,X`: no label in the operand VALUE, `needsRes`, no post byte choices): the target address becomes the
+16-bit offset -/
+theorem fixOne_abs_eq (ss : List Stmt) (i : Nat) (s : Stmt) (hk : (s.operand.kind == .relative) = false)
+    (hv : s.operand.value ≠ .pyNone)
+    (hE : s.operand.value.isAddrExpr = false) (hA : s.operand.value.isAddress = false)
+    (hn : s.pkg.needsRes = true) (hc : s.pkg.choices.isEmpty = true) : fixOne ss i s = fixPartAbs ss s := by
+  rw [fixOne_nonrel_eq _ _ _ hk hv, fixNonRel_plain _ _ _ hE hA, fixPart3_abs _ _ hn hc]
+
+/-- (b3') absolute offset: whenever the target moves by `D` (and stays inside the 64K space), the stored 16-bit
+offset moves by `D` -/
+theorem fixOne_reloc_abs (i : Nat) (s : Stmt)
+    (hk : (s.operand.kind == .relative) = false)
+    (hE : s.operand.value.isAddrExpr = false) (hA : s.operand.value.isAddress = false)
+    (hn : s.pkg.needsRes = true) (hc : s.pkg.choices.isEmpty = true)
+    (ht : fixRelTarget as' s = (fixRelTarget as s).map (· + D))
+    (hb : ∀ r, fixRelTarget as s = .ok r → r + D ≤ 65535) :
+    fixOne as' i s = (fixOne as i s).map (Stmt.shiftAdditional D) := by
+  by_cases hv : s.operand.value = .pyNone
+  · rw [fixOne_pyNone _ _ _ hk hv, fixOne_pyNone _ _ _ hk hv]; rfl
+  · rw [fixOne_abs_eq _ _ _ hk hv hE hA hn hc, fixOne_abs_eq _ _ _ hk hv hE hA hn hc,
+      fixPartAbs_reloc_of_target s ht hb]
 
 /-- what `fixOne` does to a statement whose operand is a plain label (no PCR) -/
 theorem fixOne_address_eq (ss : List Stmt) (i : Nat) (s : Stmt) {t : Nat} {m : Mode}
@@ -92,27 +131,31 @@ theorem fixOne_reloc_expr_num (h : PW (AddrShiftI D) as as') (i : Nat) (s : Stmt
     (hk : (s.operand.kind == .relative) = false) (hv : s.operand.value = .expr l r op m true)
     (hn : s.pkg.needsRes = false)
     (hother : (if l.isAddress then r else l) = .numeric k hh mm nn) (hop : op = '+' ∨ op = '-')
+    (hside : LabelSide l r op)
     (hb : ∀ v, addrOffset as (.expr l r op m true) = .ok v →
       ∃ z, v = .numeric z (some 4) .extended false ∧ z + D ≤ 65535) :
     fixOne as' i s = (fixOne as i s).map (Stmt.shiftAdditional D) := by
   rw [fixOne_expr_eq _ _ _ hk hv hn, fixOne_expr_eq _ _ _ hk hv hn,
-    addrOffset_reloc_num h l r op m true hother hop hb]
+    addrOffset_reloc_num h l r op m true hother hop hside hb]
   cases addrOffset as (.expr l r op m true) <;> rfl
 
 /-- move the `additional` field by `D` modulo `$10000` -/
 def Stmt.shiftAdditionalMod (D : Nat) (s : Stmt) : Stmt :=
   { s with pkg := { s.pkg with additional := shiftVmod D s.pkg.additional } }
 
-/-- (b5') `label - k`, unconditionally: the stored value moves by `D` modulo `$10000` -/
-theorem fixOne_reloc_expr_minus_mod (h : PW (AddrShiftI D) as as') (i : Nat) (s : Stmt)
-    {l r : Value} {m : Mode} {k : Nat} {hh : Option Nat} {mm : Mode} {nn : Bool}
-    (hk : (s.operand.kind == .relative) = false) (hv : s.operand.value = .expr l r '-' m true)
+/-- (b5') `label ± k` that the MOVED layout accepts: the stored value moves by `D` modulo `$10000` -/
+theorem fixOne_reloc_expr_mod (h : PW (AddrShiftI D) as as') (i : Nat) (s : Stmt)
+    {l r : Value} {op : Char} {m : Mode} {k : Nat} {hh : Option Nat} {mm : Mode} {nn : Bool}
+    (hk : (s.operand.kind == .relative) = false) (hv : s.operand.value = .expr l r op m true)
     (hn : s.pkg.needsRes = false)
-    (hother : (if l.isAddress then r else l) = .numeric k hh mm nn) :
+    (hother : (if l.isAddress then r else l) = .numeric k hh mm nn) (hop : op = '+' ∨ op = '-')
+    (hside : LabelSide l r op)
+    (hacc : ∀ a, addrOperand as (if l.isAddress then l else r) = .ok a →
+      (if op = '+' then a + signedK k nn else a - signedK k nn) + D ≤ 65535) :
     fixOne as' i s = (fixOne as i s).map (Stmt.shiftAdditionalMod D) := by
   rw [fixOne_expr_eq _ _ _ hk hv hn, fixOne_expr_eq _ _ _ hk hv hn,
-    addrOffset_reloc_minus_mod h l r m true hother]
-  cases addrOffset as (.expr l r '-' m true) <;> rfl
+    addrOffset_reloc_mod h l r op m true hother hop hside hacc]
+  cases addrOffset as (.expr l r op m true) <;> rfl
 
 /-- (b6) `label - label`: IDENTICAL -/
 theorem fixOne_reloc_expr_diff (h : PW (AddrShiftI D) as as') (i : Nat) (s : Stmt)
@@ -132,6 +175,7 @@ end classes
 @[simp] theorem setAddress_additional (s : Stmt) (v : Value) : (s.setAddress v).pkg.additional = s.pkg.additional := by cases s; rfl
 @[simp] theorem setAddress_size (s : Stmt) (v : Value) : (s.setAddress v).pkg.size = s.pkg.size := by cases s; rfl
 @[simp] theorem setAddress_needsRes (s : Stmt) (v : Value) : (s.setAddress v).pkg.needsRes = s.pkg.needsRes := by cases s; rfl
+@[simp] theorem setAddress_choices (s : Stmt) (v : Value) : (s.setAddress v).pkg.choices = s.pkg.choices := by cases s; rfl
 @[simp] theorem setAddress_address (s : Stmt) (v : Value) : (s.setAddress v).pkg.address = v := by cases s; rfl
 
 theorem fixBranch_setAddress (ss : List Stmt) (i : Nat) (s : Stmt) (v : Value) :
@@ -171,25 +215,38 @@ theorem fixPart2_setAddress (ss : List Stmt) (s : Stmt) (ov v : Value) :
 theorem fixRelTarget_setAddress (ss : List Stmt) (s : Stmt) (v : Value) :
     fixRelTarget ss (s.setAddress v) = fixRelTarget ss s := rfl
 
+theorem fixPartAbs_setAddress (ss : List Stmt) (s : Stmt) (v : Value) :
+    fixPartAbs ss (s.setAddress v) = (fixPartAbs ss s).map (·.setAddress v) := by
+  unfold fixPartAbs
+  rw [fixRelTarget_setAddress]
+  cases fixRelTarget ss s with
+  | ok r =>
+    dsimp only
+    generalize numericOfInt _ _ _ = x
+    cases x <;> rfl
+  | _ => rfl
+
 theorem fixPart3_setAddress (ss : List Stmt) (i : Nat) (s : Stmt) (v : Value) :
     fixPart3 ss i (s.setAddress v) = (fixPart3 ss i s).map (·.setAddress v) := by
   unfold fixPart3
-  rw [fixRelTarget_setAddress]
-  simp only [setAddress_needsRes, setAddress_size, setAddress_pcrHint]
+  rw [fixRelTarget_setAddress, fixPartAbs_setAddress]
+  simp only [setAddress_needsRes, setAddress_size, setAddress_pcrHint, setAddress_choices]
   split
-  · cases fixRelTarget ss s with
-    | ok r =>
-      cases addrIntOf ss i with
-      | none => rfl
-      | some start =>
-        dsimp only
-        split
-        · rfl
-        · generalize numericOfInt _ _ _ = x
-          cases x <;> rfl
-    | diag => rfl
-    | internal => cases addrIntOf ss i <;> rfl
-    | diverged => cases addrIntOf ss i <;> rfl
+  · split
+    · rfl
+    · cases fixRelTarget ss s with
+      | ok r =>
+        cases addrIntOf ss i with
+        | none => rfl
+        | some start =>
+          dsimp only
+          split
+          · rfl
+          · generalize numericOfInt _ _ _ = x
+            cases x <;> rfl
+      | diag => rfl
+      | internal => cases addrIntOf ss i <;> rfl
+      | diverged => cases addrIntOf ss i <;> rfl
   · rfl
 
 theorem fixNonRel_setAddress (ss : List Stmt) (i : Nat) (s : Stmt) (ov v : Value) :
